@@ -252,6 +252,10 @@ func judgeTrace(rep *vlib.Report, sp spec, r *vlib.ChildResult, b *vlib.Batch) {
 		if tmpdir != "" && under(tmpdir, p) {
 			return true
 		}
+		if strings.HasPrefix(o.form, "freshroot=") {
+			// a structure on a root of its own (one that did not exist before the call)
+			return under(strings.TrimPrefix(o.form, "freshroot="), p)
+		}
 		if sp.Comp == "unpack" {
 			if under(extract, p) || under(dest, p) || p == archive {
 				return true
